@@ -713,6 +713,34 @@ def run(ctx):
             check_addsub(idx, cases, hres, dres, stats, problems)
         if nontrivial(ln):
             distinct.add(ln)
+    # round trips through the real functions (`sub_add_cancel_wrap`, `add_sub_cancel_wrap`): the result of every base add / sub case is fed
+    # to the opposite function with the same offsets; the outcome must be the original matrix modulo 2 pi, in (-pi, pi]
+    p2 = []
+    for idx, (ln, m, h, d) in enumerate(cases):
+        if m["kind"] in ("dadd", "dsub") and m.get("role") == "base" and hres[idx] is not None:
+            op, rows, cols, a, b = parse(ln)
+            if rows * cols == 0 or cols > 130:
+                continue
+            inv = ("dsub" if op == "dadd" else "dadd") + ("B" if ln.split()[0].endswith("B") else "")
+            p2.append((idx, " ".join([inv, str(rows), str(cols)] + [hexd(x) for x in hres[idx]] + [hexd(x) for x in b])))
+    h2out, logs2 = vlib.run_harness(binary, [x[1] for x in p2])
+    for (idx, ln2), o2 in zip(p2, h2out):
+        op, rows, cols, a, b = parse(cases[idx][0])
+        v2 = parse_out(o2, rows * cols)
+        if v2 is None:
+            problems.append(("prop", "round-trip:no-result", "the opposite function failed on the result of %s: %s" % (op, o2[:80]), idx)); continue
+        stats["round_trip_entries"] = stats.get("round_trip_entries", 0) + rows * cols
+        for j in range(cols):
+            for i in range(rows):
+                y, v = hres[idx][j * rows + i], v2[j * rows + i]
+                tol = tol_angle(a[i][j], b[i]) + tol_angle(y, b[i])
+                if math.isnan(v) or not in_range(v):
+                    problems.append(("prop", "round-trip:out-of-range", "%s then the opposite function on (%r, %r) gives %r, not in (-pi, pi]" % (op, a[i][j], b[i], v), idx)); continue
+                e = dist_mod(Fraction(v) - Fraction(a[i][j]))
+                stats["max_err_over_tol_round_trip"] = max(stats.get("max_err_over_tol_round_trip", 0.0), e / tol)
+                if e > tol:
+                    problems.append(("prop", "round-trip:add-sub", "%s(%r, %r) = %r and the opposite function with the same offset gives %r, not congruent to the original angle (off by %.3g)"
+                                     % (op, a[i][j], b[i], y, v, e), idx))
     # second pass: the same cases through the plain -O2 build, same predicates
     plain = build_plain()
     pout, plogs = vlib.run_harness(plain, lines)
